@@ -18,3 +18,10 @@ const (
 	cr = '\r'
 	lf = '\n'
 )
+
+const (
+	// MaxBulkLength is the largest bulk string length the parser accepts (the same limit as Redis, 512MB).
+	MaxBulkLength = 512 * 1024 * 1024
+	// MaxArraySize is the largest number of array elements the parser accepts (the same limit as Redis).
+	MaxArraySize = 1024 * 1024
+)
